@@ -170,11 +170,13 @@ Definition e_val (l : list entry) (i : nat) : mass :=
 
 Definition pbs_step_auto V K frames E (eps : Qc) t (B : list entry) : list entry * bool :=
   let cs := pbs_cands V frames E t B in
-  let order := topk_stable (e_val cs) (length cs) (length cs) in
+  let vals := map (fun e => Fin (e_tot e)) cs in
+  let val := fun i => nth i vals NegInf in
+  let order := topk_stable val (length cs) (length cs) in
   let kept := firstn K order in
   let dropped := skipn K order in
-  let tight := existsb (fun d => is_pos eps (e_val cs d)
-                                 && existsb (fun k => mge_eps eps (e_val cs d) (e_val cs k)) kept)
+  let tight := existsb (fun d => is_pos eps (val d)
+                                 && mge_eps eps (val d) (val (last kept O)))
                        dropped in
   (map (fun i => nth i cs ([], (0%Qc, 0%Qc))) kept, tight).
 
@@ -189,6 +191,10 @@ Fixpoint pbs_auto V K frames E (eps : Qc) (n t : nat) (B : list entry) : list en
 Definition fused_score (fus : fusion) (lm : list nat -> list Qc) (frames : list sframe) : score :=
   fun t p v => let fr := nth t frames ([], 0%Qc) in
                nth v (ext_row fus lm (fst fr) (snd fr) p) 0%Qc.
+
+(* [mass_in] without adding the zeros (same value, see ProofsSpec.mass_fast_eq) *)
+Definition mass_fast (rs : list astate) (p : list nat) : Qc :=
+  fold_left (fun acc st => if list_nat_eqb (a_pre st) p then (acc + a_w st)%Qc else acc) rs 0%Qc.
 
 (* ---- boolean reading of the property on one element's output ---------------------- *)
 (* out: per beam slot (valid part of the column, reported probability) *)
@@ -214,12 +220,12 @@ Definition spec_okb (V width : nat) (frames : list sframe) (E : score) (eps : Qc
   && forallb (fun o => match snd o with Fin q => qleb 0%Qc (q + eps)%Qc | NegInf => true end) out
   (* never more than the true prefix mass *)
   && forallb (fun o => match snd o with
-                       | Fin q => qleb q (mass_in rs (fst o) + eps)%Qc
+                       | Fin q => qleb q (mass_fast rs (fst o) + eps)%Qc
                        | NegInf => true end) pos
   (* exact when the beam can hold every prefix *)
   && (Nat.ltb width (npow_sum V T)
       || forallb (fun o => match snd o with
-                           | Fin q => qabs_le q (mass_in rs (fst o)) eps
+                           | Fin q => qabs_le q (mass_fast rs (fst o)) eps
                            | NegInf => true end) pos)
   (* the mass of the prefix-beam recursion of that width, when its pruning is unambiguous *)
   && (let '(B, tight) := pbs_auto V width frames E (eps + eps + eps)%Qc T 0 pbs_init in
